@@ -201,6 +201,9 @@ def gen_cases(tier, seed):
                               'plan': {'faults': [dict(f, tag='FAULT-real')]}, 'wall_timeout': 120.0})
     cases += procpool_cases(rng, quick)
     rng.shuffle(cases)
+    from ..gen import sprinkle
+
+    sprinkle(cases, seed)
     return cases
 
 
